@@ -168,7 +168,8 @@ def gen_cfg(rng, world, fault_rate=0.35):
     for u in world["docs"]:
         if rng.random() < fault_rate:
             faults[u] = {"fail_first": rng.choice([1, 1, 2, 3, 99]),
-                         "exc": rng.choice(["OSError", "ValueError", "KeyError", "SimFault", "URLError"]),
+                         "exc": rng.choice(["OSError", "ValueError", "KeyError", "SimFault", "URLError", "ConnectionResetError",
+                                            "TimeoutError", "ConnectionRefusedError", "BrokenPipeError"]),
                          "kind": rng.choice(["net_error", "net_short_body", "net_bad_utf8",
                                              "net_not_json", "net_read_error"]),
                          "cut": rng.randrange(0, 64), "silent": rng.random() < 0.15}
